@@ -117,6 +117,8 @@ class CollectionStore(object):
     def __setitem__(self, key, val):
         with self._rwlock.writer():
             self._documents[key] = val
+        # A collection exists from its first insert on, even once it is emptied again.
+        self._is_force_created = True
 
     def __delitem__(self, key):
         with self._rwlock.writer():
